@@ -47,6 +47,9 @@ CHECKS = {
     "C11": ("pbt-programs", "Hypothesis-generated magnitudes (primes up to 2^64-59, exponents straddling every integer and floating limit, roots, pi) built through the library's operators; static_assert of representable_in/get_value against exact integers and 30-digit mpmath bounds, canonical-type identity, classification and split functions as spelled types, equality via two routes; negative compile probes (with twins) for get_value on non-representable magnitudes",
             "Exploration: enumerated limit grid for all 11 types plus random magnitudes; the bands next to the floating limits and magnitudes whose partial products leave long double's range are only required to be refused cleanly or be correct.",
             "trusts Fractions/mpmath and compile-time evaluation by the compilers", "4/C11"),
+    "C19": ("pbt-values", "generated (unit, rep) instances; all 8/16-bit values, special grids and rapidcheck draws (NaN/inf/-0/denormals/raw bits) comparing every ZERO expression with the raw operator against 0 (value and result type); conversion of ZERO to all reps and chrono durations; negative compile probes with twins for every place a quantity point is required",
+            "Exploration: exhaustive for small reps, specials + random otherwise, across generated compound units; enumerated negative probes.",
+            "raw operators compiled by the same compiler are the oracle; NaN results compared as both-NaN", "4/C19"),
 }
 ENGINES = [
     {"name": "pbt-programs", "path": "auverif/hyp.py", "kind_free_text": "Hypothesis-generated translation units judged by compiler verdict / static_assert / program output against an independent Python model",
